@@ -35,8 +35,10 @@ impl AnonymousIngressEngine {
   }
 
   pub fn deregister_pipe(&self, pipe_id: usize) {
+    // The cache holds the unread frames of the message currently being returned frame by
+    // frame; it was received whole and may come from any pipe, so a peer detaching must not
+    // discard it.
     self.queue.deregister_pipe(pipe_id);
-    *self.local_cache.lock() = None;
   }
 
   pub fn close(&self) {
